@@ -54,11 +54,7 @@ def ready_block(b, c):
 
 def dom_enum_facts(b, X, bb):
     """[(expr, variants)] for enum switches forced on every path to bb"""
-    out = []
-    for c, truth in lib.dominating_conditions(b, bb):
-        if c.kind == "enum":
-            out.append((strip(X.place(b, c.place)), truth, c))
-    return out
+    return lib.variant_facts(b, X, bb)
 
 
 def is_await_of(e, call):
